@@ -68,6 +68,12 @@ def mode_api(spec):
             handles[o["h"]].uninstall()
         elif o["op"] == "import":
             importlib.import_module(o["module"])
+        elif o["op"] == "import_failing":
+            # a module that cannot be compiled; the program survives it (try: import optional ... except)
+            try:
+                importlib.import_module(o["module"])
+            except SyntaxError:
+                pass
         elif o["op"] == "with":
             with jaxtyping.install_import_hook(o["names"], chk):
                 for m in o["inside"]:
